@@ -147,3 +147,15 @@ Proof.
   rewrite selectU64Indexed_exact by assumption. cbn [option_map fst]. unfold spec_Select. cbv zeta. cbn [fst].
   now rewrite E.
 Qed.
+
+(** the result of select32single fits Go's int32 under the size hypothesis of DESIGN section 3 *)
+Theorem spec_select32single_int32 ws i : 64 * zlen ws < 2 ^ 31 ->
+  -1 <= spec_select32single ws i <= 64 * zlen ws /\ - 2 ^ 31 <= spec_select32single ws i < 2 ^ 31.
+Proof.
+  intros Hsz. unfold spec_select32single.
+  pose proof (Zle_0_nat (length ws)) as Hl. unfold zlen in *.
+  destruct (Z.ltb_spec i 0); [lia|].
+  destruct (Z.ltb_spec i (Z.of_nat (length (all_ones ws)))) as [Hlt|]; [|lia].
+  pose proof (spec_Select_fst ws i ltac:(unfold zlen; lia)) as HF. cbv zeta in HF.
+  unfold spec_Select in HF. cbv zeta in HF. cbn [fst] in HF. unfold zlen in HF. lia.
+Qed.
